@@ -275,7 +275,9 @@ func Render(s *Scenario) Rendered {
 		files["e/main.go"] = header("main", c.uses) + body.String()
 		out.Early = "vp/e"
 	}
-	files["zz/main.go"] = "package main\n\nfunc main() {\n\tprintln(\"zz\", len(\"unrelated\"))\n}\n"
+	// the unrelated command has closures, anonymous types and a blocking function of its own: compiler
+	// state that survives from one command of a session to the next becomes visible in the later output
+	files["zz/main.go"] = "package main\n\ntype pair struct{ a, b int32 }\n\nfunc main() {\n\tch := make(chan []pair, 1)\n\tvar fs []func() int32\n\tfor i := int32(0); i < 2; i++ {\n\t\tu, v := i, i+1\n\t\tfs = append(fs, func() int32 { return u + v })\n\t}\n\tgo func() { ch <- []pair{{fs[0](), fs[1]()}} }()\n\tx := <-ch\n\tprintln(\"zz\", x[0].a, x[0].b, len(map[string]*pair{}))\n}\n"
 	sort.Strings(out.MainFiles)
 	out.Prog = gjs.Prog{Files: files}
 	return out
